@@ -28,6 +28,9 @@ succeeds on the host (oracle).  `off` / `abbr` = what Go reports for the zone at
     zone   <zone> <table> date <wall>                          the zone resolution of time.Date
     ztime  <fmt> <zone> <str> <table>                          {time <str> <fmt> <zone>}, the zone given as a
            table `<off>:<abbr>,<from>:<off>:<abbr>,…` (real transitions around the instant): no oracle
+    zh     <fn> <a1> <zone> <table> <args>                     ONE compiled `{timeattr {0} <a1> <zone>}` (fn = attr), `{timeformat {0} <a1> <zone>}`
+           (fmt) or `{time {0} <a1> <zone>}` (time, explicit format) evaluated on the HISTORY <args> in order; the model answers
+           each argument on its own from the table (no oracle, no memory)
 -/
 namespace Rare.Drv.C18
 open Rare Rare.C18 Rare.Proto
@@ -242,6 +245,26 @@ def handle : List String → String
             | some u => .val (itoa u)
             | none => .unmodelled "zone-abbreviation")
         | _ => "unmodelled needs-seq-op"
+    | _, _, _ => "bad-args"
+  | ["zh", fn, a1, _, tab, args] =>
+    match Hex.dec a1, parseTab tab, decHexList args with
+    | some a1, some z, some args =>
+      if !isAscii a1 then "unmodelled non-ascii"
+      else if !sortedTrans z.trans then "bad-args"
+      else if fn = "attr" then
+        if !attrKeys.contains (toUpper a1) then compileErr "func.enum" "<ENUM>"
+        else renderSeq ((timeAttrM z a1).run () args)
+      else if fn = "fmt" then
+        renderSeq ((timeFormatM z (namedTimeFormatToFormat timeFormats a1)).run () args)
+      else if fn = "time" then
+        match modeOf timeFormats a1 with
+        | .explicit layout =>
+          renderSeq (args.map fun str => parseThen layout str fun p =>
+            match instantIn z p with
+            | some u => .val (itoa u)
+            | none => .unmodelled "zone-abbreviation")
+        | _ => "unmodelled needs-seq-op"
+      else "bad-args"
     | _, _, _ => "bad-args"
   | _ => "bad-op"
 
